@@ -237,11 +237,10 @@ func NewFloatFromString(typ *types.FloatType, s string) (*Float, error) {
 			}
 		}
 	}
-	const base = 10
 	switch typ.Kind {
 	case types.FloatKindHalf:
 		const precision = 11
-		x, _, err := big.ParseFloat(s, base, precision, big.ToNearestEven)
+		x, err := parseDecimal(s, precision)
 		if err != nil {
 			return nil, errors.WithStack(err)
 		}
@@ -252,7 +251,7 @@ func NewFloatFromString(typ *types.FloatType, s string) (*Float, error) {
 		return c, nil
 	case types.FloatKindFloat:
 		const precision = 24
-		x, _, err := big.ParseFloat(s, base, precision, big.ToNearestEven)
+		x, err := parseDecimal(s, precision)
 		if err != nil {
 			return nil, errors.WithStack(err)
 		}
@@ -263,7 +262,7 @@ func NewFloatFromString(typ *types.FloatType, s string) (*Float, error) {
 		return c, nil
 	case types.FloatKindDouble:
 		const precision = 53
-		x, _, err := big.ParseFloat(s, base, precision, big.ToNearestEven)
+		x, err := parseDecimal(s, precision)
 		if err != nil {
 			return nil, errors.WithStack(err)
 		}
@@ -275,6 +274,22 @@ func NewFloatFromString(typ *types.FloatType, s string) (*Float, error) {
 	default:
 		panic(fmt.Errorf("support for floating-point kind %v not yet implemented", typ.Kind))
 	}
+}
+
+// parseDecimal returns the floating-point value of the given precision nearest
+// to the decimal literal s (ties to even).
+func parseDecimal(s string, prec uint) (*big.Float, error) {
+	x, _, err := big.ParseFloat(s, 10, prec, big.ToNearestEven)
+	if err != nil {
+		return nil, err
+	}
+	// big.ParseFloat rounds twice (first to prec+64 bits), which is off by one
+	// unit in the last place for a long mantissa close enough to the midpoint
+	// of two values; round the exact rational value of the literal instead.
+	if r, ok := new(big.Rat).SetString(s); ok && r.Sign() != 0 && !x.IsInf() {
+		x.SetRat(r)
+	}
+	return x, nil
 }
 
 // String returns the LLVM syntax representation of the constant as a type-value
